@@ -222,14 +222,7 @@ impl Gen {
     }
 
     fn gen_param_ty(&mut self) -> Ty {
-        // open finding (return-type dispatch with a nil argument): no parameter of type `T | []`
-        for _ in 0..6 {
-            let t = self.gen_param_ty0();
-            if !(t.contains_nil() && !t.is_nil()) {
-                return t;
-            }
-        }
-        Ty::Int
+        self.gen_param_ty0()
     }
 
     fn gen_param_ty0(&mut self) -> Ty {
